@@ -12,6 +12,7 @@ import (
 	"encoding/json"
 	"fmt"
 	"os"
+	"time"
 )
 
 type witness struct {
@@ -164,3 +165,16 @@ func Symbolic() bool { return false }
 // PoolAllChoices makes every sync.Pool.Get explore each pooled object (executor only; natively the
 // real pool decides).
 func PoolAllChoices(on bool) {}
+
+// WouldBlock runs f and reports whether it blocked forever on a lock held by the caller (executor:
+// the mutex model; natively: f runs in a goroutine and is given 200ms).
+func WouldBlock(f func()) bool {
+	done := make(chan struct{})
+	go func() { defer close(done); f() }()
+	select {
+	case <-done:
+		return false
+	case <-time.After(200 * time.Millisecond):
+		return true
+	}
+}
